@@ -1,5 +1,6 @@
 import DarkluaModel.Rules.ComputeExpressionSound
 import DarkluaModel.Shared.VisitorSound
+import DarkluaModel.Rules.AtN
 /-!
 # `compute_expression` — whole rule on the F5-free fragment, up to budget exhaustion
 
@@ -11,7 +12,7 @@ lifting theorem gives the whole-rule statement for every program; the rule itsel
 on which it agrees with the guarded version (no F5 rewrite happens).
 -/
 namespace DarkluaModel.Rules.ComputeExpression.Whole
-open DarkluaModel.Sem DarkluaModel.Rules DarkluaModel.Rules.ComputeExpression
+open DarkluaModel.Sem DarkluaModel.Rules DarkluaModel.Rules.ComputeExpression DarkluaModel.Rules.AtN
 
 /-- `to_expression` of a side-effect-free expression: same denotation, unless the budget runs out -/
 def FoldTotal (N : NumOps) (api : EvalApi) : Prop :=
@@ -50,15 +51,15 @@ theorem leE_trans {a b c : Expr} (h1 : LeE true a b) (h2 : LeE true b c) : LeE t
 variable {api : EvalApi}
 
 /-- selecting the operand that is the result of an `and`/`or` whose left side is decided and pure -/
-theorem select_le (ht : ∀ N, EvalTotal N api) (op : BinOp) (l r : Expr) (b : Bool) (hop : op = .and ∨ op = .or)
+theorem select_le {N : NumOps} (ht : EvalTotal N api) (op : BinOp) (l r : Expr) (b : Bool) (hop : op = .and ∨ op = .or)
     (htl : api.isTruthy l = some b) (hse : api.hasSideEffects l = false)
     (x : Expr) (hx : x = if (op = .and) = b then r else l) (hs : Single x) :
-    LeE true (.bin op l r) x := by
-  intro N call ρ k env σ
-  rcases (ht N).pureTotal l b htl hse call ρ k env σ with hto | ⟨ls, hok⟩
-  · left; refine ⟨rfl, ?_⟩
+    LeEAt N (.bin op l r) x := by
+  intro call ρ k env σ
+  rcases ht.pureTotal l b htl hse call ρ k env σ with hto | ⟨ls, hok⟩
+  · left
     rcases hop with rfl | rfl <;> simp [evalE, hto, Res.bind]
-  · have htr := (ht N).decided l b htl call ρ k env σ σ ls hok
+  · have htr := ht.decided l b htl call ρ k env σ σ ls hok
     right
     have one : ∀ (y : Expr), Single y → (evalE call ρ k env y σ).bind (fun ws s => Res.ok [first ws] s) = evalE call ρ k env y σ := by
       intro y hy
@@ -75,12 +76,12 @@ theorem select_le (ht : ∀ N, EvalTotal N api) (op : BinOp) (l r : Expr) (b : B
     · exact (one _ hs).symm
     · exact congrArg (fun w => Res.ok w σ) (hs N call ρ k env σ σ ls hok)
 
-theorem fold_le (hf : ∀ N, FoldTotal N api) (e v : Expr) (hte : api.toExpr e = some v) (hse : api.hasSideEffects e = false) :
-    LeE true e v := by
-  intro N call ρ k env σ
-  rcases hf N e v hte hse call ρ k env σ with h | h
-  · exact .inl ⟨rfl, h⟩
-  · exact .inr h
+theorem fold_le {N : NumOps} (hf : FoldTotal N api) (e v : Expr) (hte : api.toExpr e = some v)
+    (hse : api.hasSideEffects e = false) : LeEAt N e v :=
+  fun call ρ k env σ => hf e v hte hse call ρ k env σ
+
+theorem leE_of_at {a b : Expr} (h : ∀ N, LeEAt N a b) : LeE true a b := fun N call ρ k env σ =>
+  (h N call ρ k env σ).elim (fun h => .inl ⟨rfl, h⟩) .inr
 
 /-- coherence of the side-effect analysis on `and`/`or`: no side effects as a whole ⇒ none in the left operand
 (true of `Evaluator::has_side_effects` by its definition; `compute_expression` relies on it) -/
@@ -91,34 +92,34 @@ def AndOrCoherent (api : EvalApi) : Prop :=
 theorem litApi_coherent : AndOrCoherent litApi := fun op l r _ h => by simp [litApi] at h
 
 /-- the rule's rewrite is exact up to budget exhaustion whenever its result is single-valued -/
-theorem processExpr_le (ht : ∀ N, EvalTotal N api) (hf : ∀ N, FoldTotal N api) (hco : AndOrCoherent api) :
-    ∀ (e : Expr), multi (processExpr api e) = false → LeE true e (processExpr api e)
+theorem processExpr_le {N : NumOps} (ht : EvalTotal N api) (hf : FoldTotal N api) (hco : AndOrCoherent api) :
+    ∀ (e : Expr), multi (processExpr api e) = false → LeEAt N e (processExpr api e)
   | .un op x, _ => by
     by_cases hse : api.hasSideEffects (.un op x) = true
-    · simp only [processExpr, hse, Bool.not_true, Bool.false_eq_true, if_false]; exact LeE.refl _
+    · simp only [processExpr, hse, Bool.not_true, Bool.false_eq_true, if_false]; exact LeEAt.refl _
     · have hse' : api.hasSideEffects (.un op x) = false := by simpa using hse
       cases hte : api.toExpr (.un op x) with
-      | none => simp only [processExpr, hse', hte, Bool.not_false, if_true, Option.getD]; exact LeE.refl _
+      | none => simp only [processExpr, hse', hte, Bool.not_false, if_true, Option.getD]; exact LeEAt.refl _
       | some v => simp only [processExpr, hse', hte, Bool.not_false, if_true, Option.getD]; exact fold_le hf _ v hte hse'
   | .ifx c t elifs el, _ => by
     by_cases hse : api.hasSideEffects (.ifx c t elifs el) = true
-    · simp only [processExpr, hse, Bool.not_true, Bool.false_eq_true, if_false]; exact LeE.refl _
+    · simp only [processExpr, hse, Bool.not_true, Bool.false_eq_true, if_false]; exact LeEAt.refl _
     · have hse' : api.hasSideEffects (.ifx c t elifs el) = false := by simpa using hse
       cases hte : api.toExpr (.ifx c t elifs el) with
-      | none => simp only [processExpr, hse', hte, Bool.not_false, if_true, Option.getD]; exact LeE.refl _
+      | none => simp only [processExpr, hse', hte, Bool.not_false, if_true, Option.getD]; exact LeEAt.refl _
       | some v => simp only [processExpr, hse', hte, Bool.not_false, if_true, Option.getD]; exact fold_le hf _ v hte hse'
   | .bin op l r, hm => by
     by_cases hop : op = .and ∨ op = .or
     · by_cases hse : api.hasSideEffects (.bin op l r) = true
       · by_cases hsel : api.hasSideEffects l = true
         · rcases hop with rfl | rfl <;> simp only [processExpr, hse, hsel, Bool.not_true, Bool.false_eq_true, if_false] <;>
-            exact LeE.refl _
+            exact LeEAt.refl _
         · have hsel' : api.hasSideEffects l = false := by simpa using hsel
           cases htl : api.isTruthy l with
           | none =>
             rcases hop with rfl | rfl <;>
               simp only [processExpr, hse, hsel', htl, Bool.not_true, Bool.not_false, Bool.false_eq_true, if_false, if_true] <;>
-              exact LeE.refl _
+              exact LeEAt.refl _
           | some b =>
             rcases hop with rfl | rfl <;> cases b <;>
               simp only [processExpr, hse, hsel', htl, Bool.not_true, Bool.not_false, Bool.false_eq_true, if_false,
@@ -136,25 +137,25 @@ theorem processExpr_le (ht : ∀ N, EvalTotal N api) (hf : ∀ N, FoldTotal N ap
           cases htl : api.isTruthy l with
           | none =>
             rcases hop with rfl | rfl <;> simp only [processExpr, hse', hte, htl, Bool.not_false, if_true] <;>
-              exact LeE.refl _
+              exact LeEAt.refl _
           | some b =>
             have hsel' := hco op l r hop hse'
             rcases hop with rfl | rfl <;> cases b <;>
               simp only [processExpr, hse', hte, htl, Bool.not_false, if_true] at hm ⊢
-            · exact leE_trans (select_le ht .and l r false (.inl rfl) htl hsel' l (by simp)
+            · exact LeEAt.trans (select_le ht .and l r false (.inl rfl) htl hsel' l (by simp)
                 (single_of_not_multi _ (Sound.multi_false_of_processed hm))) (processExpr_le ht hf hco l hm)
-            · exact leE_trans (select_le ht .and l r true (.inl rfl) htl hsel' r (by simp)
+            · exact LeEAt.trans (select_le ht .and l r true (.inl rfl) htl hsel' r (by simp)
                 (single_of_not_multi _ (Sound.multi_false_of_processed hm))) (processExpr_le ht hf hco r hm)
-            · exact leE_trans (select_le ht .or l r false (.inr rfl) htl hsel' r (by simp)
+            · exact LeEAt.trans (select_le ht .or l r false (.inr rfl) htl hsel' r (by simp)
                 (single_of_not_multi _ (Sound.multi_false_of_processed hm))) (processExpr_le ht hf hco r hm)
-            · exact leE_trans (select_le ht .or l r true (.inr rfl) htl hsel' l (by simp)
+            · exact LeEAt.trans (select_le ht .or l r true (.inr rfl) htl hsel' l (by simp)
                 (single_of_not_multi _ (Sound.multi_false_of_processed hm))) (processExpr_le ht hf hco l hm)
     · have h1 : op ≠ .and := fun hh => hop (Or.inl hh)
       have h2 : op ≠ .or := fun hh => hop (Or.inr hh)
       by_cases hse : api.hasSideEffects (.bin op l r) = true
       · have : processExpr api (.bin op l r) = .bin op l r := by
           cases op <;> first | exact absurd rfl h1 | exact absurd rfl h2 | simp [processExpr, hse]
-        rw [this]; exact LeE.refl _
+        rw [this]; exact LeEAt.refl _
       · have hse' : api.hasSideEffects (.bin op l r) = false := by simpa using hse
         cases hte : api.toExpr (.bin op l r) with
         | some v =>
@@ -163,10 +164,10 @@ theorem processExpr_le (ht : ∀ N, EvalTotal N api) (hf : ∀ N, FoldTotal N ap
         | none =>
           have : processExpr api (.bin op l r) = .bin op l r := by
             cases op <;> first | exact absurd rfl h1 | exact absurd rfl h2 | simp [processExpr, hse', hte]
-          rw [this]; exact LeE.refl _
+          rw [this]; exact LeEAt.refl _
   | .nil, _ | .true, _ | .false, _ | .vararg, _ | .num _, _ | .str _, _ | .var _, _ | .paren _, _
   | .call _ _ _ _, _ | .field _ _, _ | .index _ _, _ | .fn _, _ | .table _, _ | .interp _, _ | .cast _ _, _
-  | .inst _ _, _ => by simp only [processExpr]; exact LeE.refl _
+  | .inst _ _, _ => by simp only [processExpr]; exact LeEAt.refl _
 
 /-- `process_expression`, except that a rewrite into a multi-valued expression (F5) is not performed -/
 def processExprG (api : EvalApi) (e : Expr) : Expr :=
@@ -181,7 +182,62 @@ theorem hooksLe (ht : ∀ N, EvalTotal N api) (hf : ∀ N, FoldTotal N api) (hco
     split
     · exact LeE.refl _
     · rename_i hm
+      exact leE_of_at fun N => processExpr_le (ht N) (hf N) hco e (by simpa using hm)
+
+/-- the guarded hook at one number system -/
+theorem hooksLeAt {N : NumOps} (ht : EvalTotal N api) (hf : FoldTotal N api) (hco : AndOrCoherent api) :
+    HooksLeAt N (processorG api) where
+  expr := fun e _ => by
+    simp only [processorG, processExprG]
+    split
+    · exact LeEAt.refl _
+    · rename_i hm
       exact processExpr_le ht hf hco e (by simpa using hm)
+
+/-- folded expressions are closed (literals) -/
+def FoldClosed (api : EvalApi) : Prop := ∀ (e v : Expr), api.toExpr e = some v → ∀ x, v.refs x = false
+
+theorem processExpr_refs (hc : FoldClosed api) (x : DName) : ∀ (e : Expr), e.refs x = false →
+    (processExpr api e).refs x = false
+  | .un op y, h => by
+    simp only [processExpr]
+    split
+    · cases hte : api.toExpr (.un op y) with
+      | none => simpa using h
+      | some v => simpa using hc _ v hte x
+    · exact h
+  | .ifx c t elifs el, h => by
+    simp only [processExpr]
+    split
+    · cases hte : api.toExpr (.ifx c t elifs el) with
+      | none => simpa using h
+      | some v => simpa using hc _ v hte x
+    · exact h
+  | .bin op l r, h => by
+    have hlr := h
+    simp only [Expr.refs, Bool.or_eq_false_iff] at hlr
+    have ihl := processExpr_refs hc x l hlr.1
+    have ihr := processExpr_refs hc x r hlr.2
+    simp only [processExpr]
+    split
+    · cases hte : api.toExpr (.bin op l r) with
+      | some v => simpa using hc _ v hte x
+      | none =>
+        simp only
+        cases op <;> simp only <;> first | exact h | (split <;> first | exact ihl | exact ihr | exact h)
+    · cases op <;> simp only <;> first
+        | exact h
+        | (split <;> first | exact h | (split <;> first | exact hlr.1 | exact hlr.2 | exact h))
+  | .nil, h | .true, h | .false, h | .vararg, h | .num _, h | .str _, h | .var _, h | .paren _, h
+  | .call _ _ _ _, h | .field _ _, h | .index _ _, h | .fn _, h | .table _, h | .interp _, h | .cast _ _, h
+  | .inst _ _, h => by simpa only [processExpr] using h
+
+theorem hooksNoRef (hc : FoldClosed api) : HooksNoRef (processorG api) where
+  expr := fun e _ D h x hx => by
+    simp only [processorG, processExprG]
+    split
+    · exact h x hx
+    · exact processExpr_refs hc x e (h x hx)
 
 /-- the rule without its F5 rewrites -/
 def applyG (api : EvalApi) (b : Block) : Block := (Visitor.runDefault (processorG api) b ()).1
@@ -196,5 +252,11 @@ theorem apply_upto_of_agree (ht : ∀ N, EvalTotal N api) (hf : ∀ N, FoldTotal
     (h : applyG api b = apply api b) {N : NumOps} (ρ : ExtOracle N) (n : Nat) (externs : List String) :
     runProgram ρ n externs b = .timeout ∨ runProgram ρ n externs (apply api b) = runProgram ρ n externs b := by
   rw [← h]; exact applyG_upto ht hf hco b ρ n externs
+
+/-- the guarded rule at one number system -/
+theorem applyG_upto_at {N : NumOps} (ht : EvalTotal N api) (hf : FoldTotal N api) (hco : AndOrCoherent api)
+    (hc : FoldClosed api) (b : Block) (ρ : ExtOracle N) (n : Nat) (externs : List String) :
+    runProgram ρ n externs b = .timeout ∨ runProgram ρ n externs (applyG api b) = runProgram ρ n externs b :=
+  runDefault_upto_at (hooksLeAt ht hf hco) (hooksNoRef hc) b () ρ n externs
 
 end DarkluaModel.Rules.ComputeExpression.Whole
